@@ -14,6 +14,7 @@ decimal.Decimal at 50 digits (own pi / cos / sin series), so that a failing inpu
 """
 from __future__ import annotations
 
+import contextlib
 import json
 import math
 import warnings
@@ -189,6 +190,13 @@ def run_impl(case):
         old = np.seterr(all="ignore")
         try:
             loss = build_loss(case)
+            if case.get("prior_D"):
+                # the value must equal the definition also when the SAME loss object was used before on other data
+                # (here: data with more coordinates, default weights): the earlier evaluation is discarded
+                r0 = np.random.default_rng(case.get("prior_seed", 0))     # data only; seed stored in the case
+                with contextlib.suppress(Exception):
+                    loss.compute_loss(r0.uniform(0.5, 2.0, size=(sim.shape[0], sim.shape[1], case["prior_D"])),
+                                      r0.uniform(0.5, 2.0, size=(real.shape[0], case["prior_D"])))
             v = float(loss.compute_loss(sim, real))
             obs["value"] = fhex(v) if math.isfinite(v) else None
             obs["raw"] = repr(v)
@@ -888,6 +896,10 @@ def run(chk, replay=None):
     skipped = Counter()
 
     def add(case, force=False):
+        if not force and case.get("weights") is None and case.get("filters") is None and "prior_D" not in case and rng.below(3) == 0:
+            case["prior_D"] = len(case["real"][0]) + rng.randint(1, 2)
+            case["prior_seed"] = rng.below(2**31)
+            case["tag"] = case.get("tag", "") + "+reused-object"
         obs = run_impl(case)
         ok, st, val, cond = usable(case, obs)
         if not ok and not force:
